@@ -212,8 +212,14 @@ LOOP:
 			if offset > hw {
 				break LOOP
 			}
+			key := ms.Message().Key()
+			if key == nil {
+				// Messages without a key are always retained. Do not record
+				// them under the empty string, which is a valid key.
+				continue
+			}
 			curr, loaded := keyOffsets.LoadOrStore(
-				string(ms.Message().Key()), &keyOffset{offset: offset})
+				string(key), &keyOffset{offset: offset})
 			if loaded {
 				curr.(*keyOffset).set(offset)
 			}
